@@ -82,8 +82,11 @@ def options(draw, n, nch):
             for i in draw(st.lists(st.integers(0, n - 1), min_size=1, max_size=3, unique=True)):
                 x0[i] = draw(st.sampled_from([0.0, None]))
     # options that are NOT passed: the documented default applies (and is what the reference then uses)
-    omit = draw(st.lists(st.sampled_from(["ignore_diags", "mad_max", "min_count", "tol", "max_iters", "rescale", "min_nnz", "x0", "blacklist"]),
+    omit = draw(st.lists(st.sampled_from(["ignore_diags", "mad_max", "min_count", "tol", "max_iters", "rescale", "min_nnz", "x0", "blacklist",
+                                          "cis_only", "trans_only"]),
                          unique=True, min_size=1, max_size=5)) if draw(st.integers(0, 2)) == 0 else []
+    # the two mode flags can only be left out when the mode is the default one (genome-wide)
+    omit = [k for k in omit if k not in ("cis_only", "trans_only") or mode == "genome"]
     if "min_nnz" in omit and n < 14:
         omit.remove("min_nnz")      # the default (10) would mask every bin of a small matrix
     o = _options(draw, n, mode, x0)
@@ -115,7 +118,7 @@ def cases(draw, max_bins=24):
     if m.get("only_part") and draw(st.booleans()):
         # ... and the run is the one that is left with nothing: every bin then has "no remaining data"
         o.update(cis_only=m["only_part"] == "trans", trans_only=m["only_part"] == "cis", rescale=draw(st.booleans()))
-        o["omit"] = [k for k in o["omit"] if k != "rescale"]
+        o["omit"] = [k for k in o["omit"] if k not in ("rescale", "cis_only", "trans_only")]
     if cscale and o["min_count"]:
         o = dict(o, min_count=o["min_count"] * cscale)
     # history: the Cooler object is made while the URI still holds a thinner matrix over the same bins
